@@ -73,7 +73,8 @@ prop("C10",
      "audited invariant; (P6) no break-inside-switch that spins a condition-less parser loop; (P7/P7b) every parser-built node carries "
      "line and column taken from its position argument; (P8) big.Int values narrowed into slice indexes are bounded first; (E3) no no-op "
      "zerolog chains; (E4) only participle errors reach ParseExpression (which panics otherwise) and every error leaving the YAML "
-     "unmarshallers carries a position.",
+     "unmarshallers carries a position; (I1) in collectPackages the import-cycle test dominates the already-collected shortcut and every "
+     "recursive call, so no import graph makes loading or logImports recurse without bound.",
      "Termination and memory use in general (only the specific loop/allocation shapes above are decided); panics inside third-party "
      "libraries; nil dereferences other than those implied by the length facts.",
      COMMON_ASSUME)
@@ -125,7 +126,8 @@ prop("C03",
      "expanded over the 18 primitives) is defined in the runtime that ships with it: python module-level names (ast), MATLAB +binary/<Name>.m, C++ "
      "declarations (clang AST); (G1) all back ends follow one serialization plan (same rule as C14); (PB1) every unchecked byte write of the Python "
      "output stream has capacity established on every path since the last buffer-consuming call; (PA1) no view into the Python reader's reusable "
-     "buffer escapes without a copy.",
+     "buffer escapes without a copy; (J1) the JSON-kind table that decides tagged/untagged unions contains every kind the runtimes write, "
+     "so a value copied binary -> NDJSON -> binary keeps its union case.",
      "Byte identity of streams produced by different languages; behaviour of the MATLAB runtime (no parser for .m files here: only file existence is checked).",
      COMMON_ASSUME)
 
